@@ -6,8 +6,13 @@
   length; every combination of the three flags of `process_name`; every scope; every list of names.
   Tables (`kwlist`, `pydanticReserved`, the fallback literal, `__typename`/`typename__`) are the ones
   regenerated from /repo on every run; facts about them are discharged by `decide +kernel`.
+
+  §11 (method scope) and §12 (class scope fed by several selection sources) are about the models in
+  Model/NameScopes.lean; helper lemmas in Proofs/NameScopes.lean.  Quantification there: every list of
+  variables / every selection tree, both snake settings, ordinary and subscription methods.
 -/
 import AriadneModel.Proofs.Names
+import AriadneModel.Proofs.NameScopes
 
 set_option linter.unusedSimpArgs false
 set_option linter.unusedVariables false
@@ -490,5 +495,455 @@ theorem pascal_valid_iff (n : Name) (hg : GName n) :
 theorem pascal_witnesses :
     pascal "_".toList = [] ∧ pascal "_1".toList = "1".toList ∧ pascal "none".toList = "None".toList ∧
     "None".toList ∈ kwlistC ∧ trigPascalBad "none".toList = true ∧ trigPascalBad "getUser".toList = false := by decide +kernel
+
+/-! ## 11. The scope of a client method
+
+  Names inside one generated method: `self`, one parameter per GraphQL variable, `**kwargs`, the
+  helper locals `query`/`variables`/`response`/`data` (renamed by `get_variable_names` on a clash),
+  and the two module globals the body reads (`gql`, the result class). -/
+
+section MethodScope
+open Ariadne.NameScopes
+
+/-- What the property demands of a generated method: the `def` compiles (distinct, usable parameter
+    names), and a call hands `execute` the operation text and EVERY caller's value under its GraphQL
+    name (no helper local captured a parameter, wire names kept), and returns the parsed data. -/
+def MethodLawful (sn sub : Bool) (ret : Name) (vars : List Var) : Prop :=
+  runMethod sn sub ret vars = .ok (specSent vars)
+
+/-- The region outside every known finding of the method scope: the variable names are a supported
+    scope (C18-F1..F5 as for any scope), no parameter is `self` (C18-F10) or `kwargs` (C18-F11), not
+    both `query` and `_query` are parameters (C18-F12), no parameter shadows `gql` or the result class (C18-F13). -/
+def Supported_18m (sn : Bool) (ret : Name) (vars : List Var) : Prop :=
+  Supported_18 sn .variable (vars.map (·.name)) ∧
+  trigSelfParam sn vars = false ∧ trigKwargsParam sn vars = false ∧
+  trigQueryCapture sn vars = false ∧ trigGlobalShadow sn ret vars = false
+
+instance (sn : Bool) (ret : Name) (vars : List Var) : Decidable (Supported_18m sn ret vars) := by
+  unfold Supported_18m; infer_instance
+
+theorem docParams_eq_scopeNames (sn : Bool) (vars : List Var) :
+    docParams sn vars = scopeNames sn .variable (vars.map (·.name)) := by
+  simp [docParams, scopeNames, paramOf, List.map_map, Function.comp_def]
+
+/-- the `def` compiles ⇔ every parameter is a usable name, none is `self` or `kwargs`, none occurs twice -/
+theorem defCompiles_iff (sn : Bool) (vars : List Var) :
+    defCompiles sn vars = true ↔
+      ((∀ p ∈ docParams sn vars, OutOK (variableCfg sn) p) ∧ selfName ∉ docParams sn vars ∧
+        kwargsName ∉ docParams sn vars ∧ (docParams sn vars).Nodup) := by
+  have hsk : selfName ≠ kwargsName := by decide
+  simp only [defCompiles, Bool.and_eq_true, List.all_eq_true, decide_eq_true_eq, List.nodup_cons,
+    List.mem_append, List.mem_singleton, List.nodup_append, not_or]
+  constructor
+  · rintro ⟨h1, ⟨h2, _⟩, h3, _, h5⟩
+    exact ⟨h1, h2, fun hm => h5 _ hm _ rfl rfl, h3⟩
+  · rintro ⟨h1, h2, h3, h4⟩
+    refine ⟨h1, ⟨h2, hsk⟩, h4, by simp, ?_⟩
+    intro a ha b hb e
+    subst hb; subst e; exact h3 ha
+
+/-- the helper locals never coincide with each other, whatever the parameters are -/
+theorem locals_pairwise_distinct (args : List Name) :
+    let L := getVariableNames args
+    [L.q, L.v, L.r, L.d].Nodup := by
+  have h := locals_distinct args
+  simp only at h ⊢
+  obtain ⟨h1, h2, h3, h4, h5, h6⟩ := h
+  simp only [List.nodup_cons, List.mem_cons, List.not_mem_nil, or_false, not_or, List.nodup_nil, and_true, not_false_eq_true]
+  exact ⟨⟨fun e => h1 e.symm, fun e => h2 e.symm, fun e => h4 e.symm⟩, ⟨fun e => h3 e.symm, fun e => h5 e.symm⟩, fun e => h6 e.symm⟩
+
+/-- `rename_captures_iff`: the (renamed) helper local is one of the parameters ⇔ both `h` and `_h`
+    are parameters - the rename of `get_variable_names` avoids the first clash and walks into the second. -/
+theorem rename_captures_iff (sn : Bool) (vars : List Var) (h : Name) (hs : h ≠ selfName) (hs' : '_' :: h ≠ selfName) :
+    rename (argNames sn vars) h ∈ argNames sn vars ↔
+      (h ∈ docParams sn vars ∧ ('_' :: h) ∈ docParams sn vars) := by
+  rcases rename_cases (argNames sn vars) h with ⟨hin, e⟩ | ⟨hout, e⟩
+  · rw [e]
+    have hin' := (mem_argNames sn vars h).mp hin
+    constructor
+    · intro h1
+      rcases (mem_argNames sn vars _).mp h1 with h1 | h1
+      · exact absurd h1 hs'
+      · rcases hin' with h2 | h2
+        · exact absurd h2 hs
+        · exact ⟨h2, h1⟩
+    · rintro ⟨_, h1⟩; exact (mem_argNames sn vars _).mpr (Or.inr h1)
+  · rw [e]
+    constructor
+    · intro h1; exact absurd h1 hout
+    · rintro ⟨h1, _⟩; exact absurd ((mem_argNames sn vars h).mpr (Or.inr h1)) hout
+
+/-- the result class of an operation never has one of the names a method fixes itself
+    (`str_to_pascal_case` output contains no underscore and does not start with a lower-case letter) -/
+theorem pascal_not_fixed (n : Name) : pascal n ∉ fixedMethodNames := by
+  intro hm
+  have hnu := pascal_no_underscore n
+  have hcap : capitalize (pascal n) = pascal n := capitalize_flatten_head _
+  have key : ∀ c r, pascal n = c :: r → cls c ≠ .L := by
+    intro c r e hL
+    rw [e] at hcap
+    simp only [capitalize, List.cons.injEq, and_true] at hcap
+    have := cls_upperChar c
+    rw [hcap, hL] at this
+    exact absurd this (by simp)
+  simp only [fixedMethodNames, List.mem_cons, List.not_mem_nil, or_false] at hm
+  rcases hm with e | e | e | e | e | e | e | e | e | e | e <;>
+    first
+      | (rw [e] at hnu; exact hnu (by decide))
+      | (exact key _ _ e (by decide))
+
+/-- `method_exact`: for GraphQL variable names without repetition, any number of variables, both
+    snake settings, ordinary and subscription methods, and any result-class name a generator can
+    produce: the method is lawful ⇔ the operation lies outside every finding region.
+    (⇐ is the partial theorem; ⇒ says the regions are exact.) -/
+theorem method_exact (sn sub : Bool) (ret : Name) (vars : List Var)
+    (hg : ∀ v ∈ vars, GName v.name) (hnd : (vars.map (·.name)).Nodup) (hret : ret ∉ fixedMethodNames) :
+    MethodLawful sn sub ret vars ↔ Supported_18m sn ret vars := by
+  have hgn : ∀ n ∈ vars.map (·.name), GName n := by
+    intro n hn
+    obtain ⟨v, hv, rfl⟩ := List.mem_map.mp hn
+    exact hg v hv
+  have hex := C18_exact sn .variable (vars.map (·.name)) hgn hnd
+  have hdp := docParams_eq_scopeNames sn vars
+  -- facts about `ret` and the locals
+  have hfix : ∀ x ∈ fixedMethodNames, ret ≠ x := fun x hx e => hret (e ▸ hx)
+  obtain ⟨L, hL⟩ : ∃ L, L = getVariableNames (argNames sn vars) := ⟨_, rfl⟩
+  have hLq : L.q = queryLocal ∨ L.q = '_' :: queryLocal := by
+    rcases rename_cases (argNames sn vars) queryLocal with ⟨_, e⟩ | ⟨_, e⟩ <;> simp [hL, getVariableNames, e]
+  have hLv : L.v = variablesLocal ∨ L.v = '_' :: variablesLocal := by
+    rcases rename_cases (argNames sn vars) variablesLocal with ⟨_, e⟩ | ⟨_, e⟩ <;> simp [hL, getVariableNames, e]
+  have hLr : L.r = responseLocal ∨ L.r = '_' :: responseLocal := by
+    rcases rename_cases (argNames sn vars) responseLocal with ⟨_, e⟩ | ⟨_, e⟩ <;> simp [hL, getVariableNames, e]
+  have hLd : L.d = dataLocal ∨ L.d = '_' :: dataLocal := by
+    rcases rename_cases (argNames sn vars) dataLocal with ⟨_, e⟩ | ⟨_, e⟩ <;> simp [hL, getVariableNames, e]
+  have hr1 : ret ≠ selfName := hfix _ (by simp [fixedMethodNames])
+  have hr2 : ret ≠ kwargsName := hfix _ (by simp [fixedMethodNames])
+  have hrq : ret ≠ L.q := by rcases hLq with e | e <;> rw [e] <;> exact hfix _ (by simp [fixedMethodNames])
+  have hrv : ret ≠ L.v := by rcases hLv with e | e <;> rw [e] <;> exact hfix _ (by simp [fixedMethodNames])
+  have hrr : ret ≠ L.r := by rcases hLr with e | e <;> rw [e] <;> exact hfix _ (by simp [fixedMethodNames])
+  have hrd : ret ≠ L.d := by rcases hLd with e | e <;> rw [e] <;> exact hfix _ (by simp [fixedMethodNames])
+  have hqs : L.q ≠ selfName := by rcases hLq with e | e <;> rw [e] <;> decide
+  have hvq : L.v ≠ L.q := by rw [hL]; exact (locals_distinct (argNames sn vars)).1
+  constructor
+  · -- lawful ⇒ supported
+    intro hlaw
+    unfold MethodLawful runMethod at hlaw
+    cases hc : defCompiles sn vars
+    · rw [hc] at hlaw; exact absurd hlaw (by simp)
+    rw [hc] at hlaw
+    simp only [if_true] at hlaw
+    rw [← hL] at hlaw
+    obtain ⟨hok, hself, hkw, hnodup⟩ := (defCompiles_iff sn vars).mp hc
+    have hlawful : Lawful sn .variable (vars.map (·.name)) := by
+      refine ⟨by rw [← hdp]; exact hnodup, fun n hn => ⟨?_, wire_name_kept sn .variable n⟩⟩
+      have : pyName sn .variable n ∈ docParams sn vars := by
+        rw [hdp]; exact List.mem_map.mpr ⟨n, hn, rfl⟩
+      exact hok _ this
+    refine ⟨hex.mp hlawful, ?_, ?_, ?_, ?_⟩
+    · cases h : trigSelfParam sn vars
+      · rfl
+      · exact absurd (by simpa [trigSelfParam] using h) hself
+    · cases h : trigKwargsParam sn vars
+      · rfl
+      · exact absurd (by simpa [trigKwargsParam] using h) hkw
+    · cases h : trigQueryCapture sn vars
+      · rfl
+      · exfalso
+        simp only [trigQueryCapture, Bool.and_eq_true, List.contains_iff_mem] at h
+        obtain ⟨hq1, hq2⟩ := h
+        have hLq' : L.q = '_' :: queryLocal := by
+          rcases rename_cases (argNames sn vars) queryLocal with ⟨_, e⟩ | ⟨hout, _⟩
+          · simp [hL, getVariableNames, e]
+          · exact absurd ((mem_argNames sn vars _).mpr (Or.inr hq1)) hout
+        obtain ⟨vals, hread, hvars⟩ := runBody_variables sub L ret _ _ _ hlaw
+        have hmem : Val.text ∈ vals :=
+          readAll_mem _ L.q .text (by simp [List.lookup]) _ vals hread (by rw [hLq']; exact hq2)
+        simp only [specSent, Val.dict.injEq] at hvars
+        rw [← hvars.2] at hmem
+        exact text_not_mem_argVals _ _ hmem
+    · cases h : trigGlobalShadow sn ret vars
+      · rfl
+      · exfalso
+        simp only [trigGlobalShadow, Bool.or_eq_true, List.contains_iff_mem] at h
+        rcases h with h | h
+        · rw [runBody_gql sub L ret _ _ h] at hlaw
+          exact absurd hlaw (by simp)
+        · exact runBody_ret sub L ret _ _ _ hlaw hr1 hrq hrv hrr hrd h
+  · -- supported ⇒ lawful
+    rintro ⟨hsup, h10, h11, h12, h13⟩
+    obtain ⟨hnodup, hall⟩ := hex.mpr hsup
+    have hself : selfName ∉ docParams sn vars := contains_false h10
+    have hkw : kwargsName ∉ docParams sn vars := contains_false h11
+    have hok : ∀ p ∈ docParams sn vars, OutOK (variableCfg sn) p := by
+      intro p hp
+      rw [hdp] at hp
+      obtain ⟨n, hn, rfl⟩ := List.mem_map.mp hp
+      exact (hall n hn).1
+    have hc : defCompiles sn vars = true :=
+      (defCompiles_iff sn vars).mpr ⟨hok, hself, hkw, by rw [hdp]; exact hnodup⟩
+    simp only [trigGlobalShadow, Bool.or_eq_false_iff] at h13
+    have hgql : gqlName ∉ docParams sn vars := contains_false h13.1
+    have hretp : ret ∉ docParams sn vars := contains_false h13.2
+    have hq : L.q ∉ docParams sn vars := by
+      rcases rename_cases (argNames sn vars) queryLocal with ⟨hin, e⟩ | ⟨hout, e⟩
+      · have e' : L.q = '_' :: queryLocal := by simp [hL, getVariableNames, e]
+        rw [e']
+        intro hm
+        have hq1 : queryLocal ∈ docParams sn vars := by
+          rcases (mem_argNames sn vars _).mp hin with h | h
+          · exact absurd h (by decide)
+          · exact h
+        have : trigQueryCapture sn vars = true := by
+          simp [trigQueryCapture, hq1, hm]
+        rw [h12] at this; exact absurd this (by simp)
+      · have e' : L.q = queryLocal := by simp [hL, getVariableNames, e]
+        rw [e']
+        exact fun hm => hout ((mem_argNames sn vars _).mpr (Or.inr hm))
+    unfold MethodLawful runMethod
+    rw [hc]
+    simp only [if_true]
+    rw [← hL, runBody_ok sub L ret _ _ hq hqs hself (by rw [hdp]; exact hnodup) hvq hgql hretp hr1 hr2 hrq hrv hrr hrd]
+    simp [specSent, docParams]
+
+/-- with snake-casing on no parameter begins with an underscore: the capture region C18-F12 is empty
+    there (`$query` + `$_query` is then the duplicate parameter of C18-F1 instead) -/
+theorem capture_needs_snake_off (vars : List Var) (hg : ∀ v ∈ vars, GName v.name) :
+    trigQueryCapture true vars = false := by
+  have key : ('_' :: queryLocal) ∉ docParams true vars := by
+    intro hm
+    simp only [docParams, paramOf, List.mem_map] at hm
+    obtain ⟨v, hv, e⟩ := hm
+    have hgv := hg v hv
+    have e' : processName (variableCfg true) v.name = '_' :: queryLocal := e
+    cases hu : allUnderscore v.name
+    · rw [processName_snake _ v.name rfl hu] at e'
+      rcases snake_head v.name with ⟨_, h2⟩ | ⟨a, as, r, h1, h2⟩
+      · rw [h2, suffix_nil] at e'; exact absurd e' (by simp)
+      · have haO : cls a ≠ .O := by
+          have : a ∈ alnum v.name := by rw [h1]; simp
+          simpa [alnum] using (List.mem_filter.mp this).2
+        have hne : lowerChar a ≠ '_' := ne_underscore_of_cls (cls_lowerChar_ne_O haO)
+        obtain ⟨r', hr'⟩ := suffix_head (variableCfg true) (lowerChar a) r
+        rw [h2, hr'] at e'
+        injection e' with e1 _
+        exact hne e1
+    · rw [processName_snake_allU _ v.name rfl hu] at e'
+      revert e'
+      decide +kernel
+  cases h : trigQueryCapture true vars
+  · rfl
+  · simp only [trigQueryCapture, Bool.and_eq_true, List.contains_iff_mem] at h
+    exact absurd h.2 key
+
+/-- the partial theorem in its usual form -/
+theorem method_partial (sn sub : Bool) (ret : Name) (vars : List Var)
+    (hg : ∀ v ∈ vars, GName v.name) (hnd : (vars.map (·.name)).Nodup) (hret : ret ∉ fixedMethodNames)
+    (hs : Supported_18m sn ret vars) : MethodLawful sn sub ret vars :=
+  (method_exact sn sub ret vars hg hnd hret).mpr hs
+
+/-- the method scope at full strength: every operation with distinct GraphQL variable names gets a lawful method -/
+def Method_full : Prop :=
+  ∀ (sn sub : Bool) (opName : Name) (vars : List Var),
+    (∀ v ∈ vars, GName v.name) → (vars.map (·.name)).Nodup → MethodLawful sn sub (pascal opName) vars
+
+/-- `Method_full_false`: nothing refuses `$self`, and the method does not compile -/
+theorem Method_full_false : ¬ Method_full := by
+  intro h
+  have hl := h false false "Q".toList [⟨"self".toList, false⟩] (by decide +kernel) (by decide +kernel)
+  have := (method_exact false false _ _ (by decide +kernel) (by decide +kernel) (pascal_not_fixed _)).mp hl
+  revert this
+  decide +kernel
+
+/-- the four method-scope findings on the model, evaluated: what the generated method does -/
+theorem method_witnesses :
+    -- C18-F10: `$self` / (snake) `$Self`: duplicate argument
+    runMethod false false "Q".toList [⟨"self".toList, false⟩] = .error .syntaxError ∧
+    runMethod true false "Q".toList [⟨"x".toList, true⟩, ⟨"Self".toList, false⟩] = .error .syntaxError ∧
+    -- C18-F11: `$kwargs` / (snake) `$_kwargs`
+    runMethod false false "Q".toList [⟨"kwargs".toList, false⟩] = .error .syntaxError ∧
+    runMethod true true "Q".toList [⟨"_kwargs".toList, false⟩, ⟨"x".toList, false⟩] = .error .syntaxError ∧
+    -- C18-F12: `$query` + `$_query`, snake off: the operation text is sent as the value of `$_query`
+    runMethod false false "Q".toList [⟨"query".toList, false⟩, ⟨"_query".toList, false⟩] =
+      .ok ⟨.text, .dict ["query".toList, "_query".toList] [.arg 0, .text],
+           .parsed (.data (.resp .text (.dict ["query".toList, "_query".toList] [.arg 0, .text])))⟩ ∧
+    -- C18-F13: `$gql` (snake: `$Gql`) is called instead of the module function; `$Q` in `query Q` (snake off) hides the result class
+    runMethod true true "Q".toList [⟨"Gql".toList, true⟩] = .error (.notCallable gqlName) ∧
+    runMethod false false "Q".toList [⟨"Q".toList, true⟩] = .error (.noAttribute "Q".toList) :=
+  ⟨rfl, rfl, rfl, rfl, rfl, rfl, rfl⟩
+
+/-- the neighbours that work: `$query` alone is renamed around; `$response`+`$_response` is harmless
+    (the helper is bound only after the dict was built); with snake-casing `$_query` alone is just `query` -/
+theorem method_neighbours :
+    Supported_18m false "Q".toList [⟨"query".toList, false⟩, ⟨"variables".toList, true⟩] ∧
+    Supported_18m false "Q".toList [⟨"response".toList, false⟩, ⟨"_response".toList, false⟩, ⟨"data".toList, false⟩, ⟨"_data".toList, false⟩] ∧
+    Supported_18m true "Q".toList [⟨"_query".toList, false⟩, ⟨"Data".toList, false⟩] ∧
+    Supported_18m false "Q".toList [⟨"Self".toList, false⟩, ⟨"_kwargs".toList, false⟩, ⟨"Gql".toList, false⟩] := by
+  decide +kernel
+
+/-- non-vacuity of `method_exact` / `method_partial` -/
+example : (∀ v ∈ ([⟨"query".toList, false⟩, ⟨"userId".toList, true⟩] : List Var), GName v.name) ∧
+    (([⟨"query".toList, false⟩, ⟨"userId".toList, true⟩] : List Var).map (·.name)).Nodup ∧
+    pascal "getUser".toList ∉ fixedMethodNames ∧
+    Supported_18m true (pascal "getUser".toList) [⟨"query".toList, false⟩, ⟨"userId".toList, true⟩] := by
+  decide +kernel
+
+end MethodScope
+
+/-! ## 12. The scope of a result class fed by several selection sources
+
+  One class gets its fields from the selection set itself, from inline fragments and from unpacked
+  fragment spreads (`_resolve_selection_set`); fragments used as base classes contribute by inheritance. -/
+
+section ClassScope
+open Ariadne.NameScopes
+
+/-- `class_rows`: the class declares one attribute per resolved field node, in order, nothing
+    de-duplicated - whatever source the node came from - and the fragments not unpacked become bases. -/
+theorem class_rows (sn : Bool) (e : TypeEnv) (root : Name) (addT : Bool) (sels : List Sel) (items : List Item)
+    (h : resolveSels e root sels = .ok items) :
+    classOf sn e root addT sels =
+      .ok ⟨(classKeys addT items).map (emit sn .resultField), (itemBases items).eraseDups.map pascal⟩ := by
+  simp [classOf, h]
+
+/-- every attribute of the class travels under the response key of its field node -/
+theorem class_wire_kept (sn : Bool) (keys : List Name) :
+    (keys.map (emit sn .resultField)).map (·.wire) = keys := by
+  induction keys with
+  | nil => rfl
+  | cons k ks ih => simp only [List.map_cons, wire_name_kept, ih]
+
+/-- `class_rows_distinct`: two different response keys of one class get different attributes ⇔
+    the pair lies in no merge region (C18-F1, F2, F3, F7, F8) - for keys from any mix of sources. -/
+theorem class_rows_distinct (sn : Bool) (a b : Name) (ha : GName a) (hb : GName b) (hab : a ≠ b) :
+    (emit sn .resultField a).py ≠ (emit sn .resultField b).py ↔ trigScopeMerge sn .resultField a b = false := by
+  have h := scope_collision_iff sn .resultField a b ha hb
+  have ea : (emit sn .resultField a).py = pyName sn .resultField a := rfl
+  have eb : (emit sn .resultField b).py = pyName sn .resultField b := rfl
+  rw [ea, eb]
+  constructor
+  · intro hne
+    cases ht : trigScopeMerge sn .resultField a b
+    · rfl
+    · exact absurd (h.mpr (Or.inr ht)) hne
+  · intro ht heq
+    rcases h.mp heq with h1 | h1
+    · exact hab h1
+    · rw [ht] at h1; exact absurd h1 (by simp)
+
+/-- `class_keys_eq_collect`: where the generator's type tests agree with GraphQL (`noDropSels`), the class
+    together with the fragments it inherits from carries exactly the response keys GraphQL's
+    CollectFields yields for an object of runtime type `T` - same keys, same order, same multiplicity. -/
+theorem class_keys_eq_collect (e : TypeEnv) (T root : Name) (sels : List Sel)
+    (h : noDropSels e T root sels = true) : effectiveSels e root sels = .ok (collectSels e T sels) :=
+  effectiveSels_eq_collect e T root sels h
+
+/-- `class_nothing_lost`: a class without base classes declares every collected key itself -/
+theorem class_nothing_lost (e : TypeEnv) (T root : Name) (sels : List Sel) (items : List Item)
+    (hres : resolveSels e root sels = .ok items) (hb : itemBases items = [])
+    (h : noDropSels e T root sels = true) : itemKeys items = collectSels e T sels := by
+  have h1 := effectiveSels_of_no_bases e root sels items hres hb
+  have h2 := effectiveSels_eq_collect e T root sels h
+  rw [h1] at h2
+  exact Except.ok.inj h2
+
+/-- What the property demands of a result class, for an object of runtime type `T`: every response key
+    GraphQL collects has an attribute that travels under it; attributes of different keys are different
+    Python names; every attribute is a usable name. -/
+def ClassLawful (sn : Bool) (e : TypeEnv) (T : Name) (sels : List Sel) (out : ClassOut) : Prop :=
+  (∀ k ∈ collectSels e T sels, ∃ row ∈ out.rows, row.wire = k) ∧
+  (∀ r1 ∈ out.rows, ∀ r2 ∈ out.rows, r1.wire ≠ r2.wire → r1.py ≠ r2.py) ∧
+  (∀ r ∈ out.rows, OutOK (fieldCfg sn) r.py)
+
+/-- `class_exact`: for selection trees of any shape and depth whose fragments are all unpacked (no
+    base class) and in which nothing is dropped, the generated class is lawful ⇔ its response keys
+    lie outside every finding region of the response-key scope.  In particular two response keys of
+    one class - e.g. two aliases of ONE schema field, one of them inside an inline fragment - always
+    get two attributes. -/
+theorem class_exact (sn : Bool) (e : TypeEnv) (T root : Name) (sels : List Sel) (items : List Item) (out : ClassOut)
+    (hres : resolveSels e root sels = .ok items) (hb : itemBases items = [])
+    (hnd : noDropSels e T root sels = true) (hg : ∀ k ∈ itemKeys items, GName k)
+    (hout : classOf sn e root false sels = .ok out) :
+    ClassLawful sn e T sels out ↔ Supported_18 sn .resultField (itemKeys items) := by
+  have hrows : out.rows = (itemKeys items).map (emit sn .resultField) := by
+    rw [class_rows sn e root false sels items hres] at hout
+    have := Except.ok.inj hout
+    rw [← this]; simp [classKeys]
+  have hcol := class_nothing_lost e T root sels items hres hb hnd
+  have hmem : ∀ r, r ∈ out.rows ↔ ∃ k ∈ itemKeys items, emit sn .resultField k = r := by
+    intro r; rw [hrows]; exact List.mem_map
+  constructor
+  · rintro ⟨_, h2, h3⟩
+    refine ⟨fun n hn => ?_, fun a ha b hb' hab => ?_⟩
+    · have := h3 _ ((hmem _).mpr ⟨n, hn, rfl⟩)
+      exact (scope_valid_iff sn .resultField n (hg n hn)).mp this
+    · have hne := h2 _ ((hmem _).mpr ⟨a, ha, rfl⟩) _ ((hmem _).mpr ⟨b, hb', rfl⟩)
+        (by rw [wire_name_kept, wire_name_kept]; exact hab)
+      exact (class_rows_distinct sn a b (hg a ha) (hg b hb') hab).mp hne
+  · rintro ⟨h1, h2⟩
+    refine ⟨fun k hk => ?_, fun r1 hr1 r2 hr2 hw => ?_, fun r hr => ?_⟩
+    · rw [← hcol] at hk
+      exact ⟨_, (hmem _).mpr ⟨k, hk, rfl⟩, wire_name_kept sn .resultField k⟩
+    · obtain ⟨a, ha, rfl⟩ := (hmem _).mp hr1
+      obtain ⟨b, hb', rfl⟩ := (hmem _).mp hr2
+      rw [wire_name_kept, wire_name_kept] at hw
+      exact (class_rows_distinct sn a b (hg a ha) (hg b hb') hw).mpr (h2 a ha b hb' hw)
+    · obtain ⟨k, hk, rfl⟩ := (hmem _).mp hr
+      exact (scope_valid_iff sn .resultField k (hg k hk)).mpr (h1 k hk)
+
+/-- the selection of the seeded change, on the model: `small: avatar  ... on User { large: avatar }`
+    gives two attributes; with `fooBar: avatar ... on User { foo_bar: avatar }` the two keys are merged (C18-F1) -/
+def userEnv : TypeEnv :=
+  ⟨[("User".toList, ["Node".toList]), ("Query".toList, [])], [("Node".toList, ["User".toList])], []⟩
+
+theorem class_witnesses :
+    (classOf true userEnv "User".toList false
+        [.field (some "small".toList) "avatar".toList,
+         .inline "User".toList [.field (some "large".toList) "avatar".toList]]).toOption.map (·.rows.map (·.py))
+      = some ["small".toList, "large".toList] ∧
+    (classOf true userEnv "User".toList false
+        [.field (some "fooBar".toList) "avatar".toList,
+         .spread "F".toList "Node".toList [.field (some "foo_bar".toList) "avatar".toList]]).toOption.map (·.rows.map (·.py))
+      = some ["foo_bar".toList, "foo_bar".toList] ∧
+    noDropSels userEnv "User".toList "User".toList
+        [.field (some "small".toList) "avatar".toList,
+         .inline "User".toList [.field (some "large".toList) "avatar".toList],
+         .spread "F".toList "Node".toList [.field (some "foo_bar".toList) "avatar".toList]] = true := by
+  decide +kernel
+
+end ClassScope
+
+/-! ## 13. Determinism: a run is history-free
+
+  "the mapping is deterministic": what a call returns depends on its flags and its name only - not on
+  the calls made before it in the same process (other scopes, other flags), nor on their order. -/
+
+/-- `process_history_free`: whatever was called before and after, the call at any position of a run
+    returns what it returns alone. -/
+theorem process_history_free (before after : List Call) (c : Call) :
+    (runCalls (before ++ c :: after))[before.length]? = some (processName c.cfg c.name) := by
+  simp [runCalls]
+
+/-- ... in particular a call repeated later in the run (same flags, same name, anything in between) returns the same name -/
+theorem process_repeatable (a b c' : List Call) (c : Call) :
+    (runCalls (a ++ c :: b ++ c :: c'))[a.length]? = (runCalls (a ++ c :: b ++ c :: c'))[a.length + 1 + b.length]? := by
+  have h1 := process_history_free a (b ++ c :: c') c
+  have h2 := process_history_free (a ++ c :: b) c' c
+  simp only [List.append_assoc, List.cons_append] at h1 h2 ⊢
+  rw [h1]
+  have : (a ++ c :: b).length = a.length + 1 + b.length := by simp; omega
+  rw [this] at h2
+  exact h2.symm
+
+/-- `process_order_free`: re-ordering the calls of a run re-orders the answers and changes none -/
+theorem process_order_free (l₁ l₂ : List Call) (h : l₁.Perm l₂) : (runCalls l₁).Perm (runCalls l₂) :=
+  h.map _
+
+/-- the flags matter (so a result must not be shared between calls that differ in flags only):
+    `json` is suffixed for a pydantic field and left alone for a method parameter; `__rank` loses BOTH
+    underscores as a field and none as a parameter -/
+theorem flags_matter :
+    processName ⟨false, true, true⟩ "json".toList = "json_".toList ∧ processName ⟨false, false, false⟩ "json".toList = "json".toList ∧
+    processName ⟨false, true, true⟩ "__rank".toList = "rank".toList ∧ processName ⟨false, false, false⟩ "__rank".toList = "__rank".toList := by
+  decide +kernel
 
 end Ariadne.C18
